@@ -212,6 +212,12 @@ def step(r, W, maps, mems):
         return "shift", [oper(r.choice(["<<", ">>"]), x, cst(r.choice([0, 1, 4, x.size - 1, x.size, x.size + 1]), x.size))]
     if k < 0.43:
         x = pick()
+        if r.random() < 0.35:
+            # extensions to a wider, equal or narrower-or-equal target size
+            n = r.choice([x.size, x.size, x.size + 8, 2 * x.size, max(x.size - 1, 1)])
+            if n > 128:
+                n = x.size
+            return "extend", [x.signextend(n) if r.random() < 0.5 else x.zeroextend(n)]
         return "unop", [~x if r.random() < 0.5 else -x]
     if k < 0.52:
         x = pick()
@@ -360,6 +366,7 @@ def main(tier):
         mems = [MemoryMap()]
         base = [(x, x.size, values(x)) for x in W]
         pbase = [probes(x) for x in W]
+        sbase = [bool(x.sf) for x in W]
         trace = []
         for t in range(hlen):
             try:
@@ -383,6 +390,14 @@ def main(tier):
                     # (a position the walker can no longer evaluate — the object was re-shaped into a form
                     #  outside the walker's fragment, e.g. a vec condition — is undecided, not a change)
                     bad = "value " + ", ".join("%s->%s" % (hex(a) if isinstance(a, int) else a, hex(b) if isinstance(b, int) else b) for a, b in zip(vals, now) if a != b and isinstance(b, int))[:160]
+                if bool(o.sf) != sbase[idx]:
+                    # the sign flag selects the signed reading of the value (/, %, <, >>, extensions): an
+                    # operation that flips it on an object it only used changes what that object means
+                    ck.report("C13:%s:%s:sign-flag" % (name, kind(o)),
+                              "after operation %s a pre-existing %s object (%s) has its sign flag %s" % (name, kind(o), str(o)[:60], "set" if o.sf else "cleared"),
+                              "oracle", "Amoco.Value.Props.operand_preserved (declared signedness is part of the denotation)",
+                              case={"history": trace[-12:], "object_index": idx, "object_now": str(o)[:200]}, real=bool(o.sf), expected=sbase[idx])
+                    sbase[idx] = bool(o.sf)
                 if bad:
                     opk = name.split("0")[0]
                     ck.report("C13:%s:%s:%s" % (name, kind(o), bad.split(" ")[0]),
@@ -406,6 +421,7 @@ def main(tier):
                     v = values(x)
                     base.append((x, x.size, v))
                     pbase.append(probes(x))
+                    sbase.append(bool(x.sf))
                     ck.count("object." + kind(x) + (".unmodelled" if "?" in v else ""))
             ck.case((h, t, name), nontrivial=not name.startswith(("leaf", "noop")))
         # ---- copies are the same value -----------------------------------------------------------------
